@@ -47,7 +47,7 @@ func defaultFormat(v interface{}, f fmt.State, c rune) {
 	fmt.Fprintf(f, format, v)
 }
 
-// formatInteger writes the integer conversion c (d, o, x or X) of the magnitude u the way C's printf
+// formatInteger writes the integer conversion c (d, u, o, x or X) of the magnitude u the way C's printf
 // does. Go's fmt differs in the alternate form: it writes 0x in front of a zero, does not count the
 // prefix when it pads with zeros, and lets a precision of 0 suppress the "0" that %#o asks for; and
 // it drops the sign that the flags '+' and ' ' ask for when a precision of 0 suppresses the value 0.
